@@ -11,6 +11,13 @@ import (
 	"mc/refper"
 )
 
+// NilForEmpty: a zero-length OCTET STRING becomes a nil slice instead of an empty non-nil one (both are the same ASN.1
+// value; callers alternate).
+var NilForEmpty bool
+
+// EmptyOctetsSeen counts the zero-length OCTET STRINGs ToGo met (reset by the caller).
+var EmptyOctetsSeen int
+
 var (
 	bitStringT = reflect.TypeOf(aper.BitString{})
 	octetT     = reflect.TypeOf(aper.OctetString{})
@@ -43,6 +50,13 @@ func ToGo(s *refper.Schema, typ string, n *refper.Node, v reflect.Value) error {
 		v.Set(reflect.ValueOf(aper.BitString{Bytes: append([]byte{}, n.B...), BitLength: n.NBits}))
 		return nil
 	case typ == "#octets":
+		if len(n.B) == 0 {
+			EmptyOctetsSeen++
+		}
+		if len(n.B) == 0 && NilForEmpty {
+			v.Set(reflect.Zero(octetT)) // the zero-length value the way Go code that never assigns the field has it: a nil slice
+			return nil
+		}
 		v.Set(reflect.ValueOf(aper.OctetString(append([]byte{}, n.B...))))
 		return nil
 	case typ == "#string":
